@@ -111,7 +111,7 @@ func genClocks(r *hx.Rand) ([]int64, string) {
 	cur := base
 	for i := range cl {
 		if i > 0 {
-			switch r.Intn(8) {
+			switch r.Intn(11) {
 			case 0: // frozen
 			case 1, 2:
 				cur += int64(r.Range(1, 3))
@@ -123,6 +123,19 @@ func genClocks(r *hx.Rand) ([]int64, string) {
 				cur -= int64(r.Range(1, 50))
 			case 6:
 				cur -= int64(r.U64() % 2_000_000_000)
+			case 7: // a step of any magnitude, 1 ns .. hours, either direction (NTP step, manual change)
+				mag := int64(1)
+				for k := r.Intn(14); k > 0; k-- {
+					mag *= 10
+				}
+				d := int64(r.Range(1, 9)) * mag
+				if r.Chance(2, 3) {
+					d = -d
+				}
+				cur += d
+			case 8: // steps back by "human" amounts, exact and +-4 ns around them
+				d := []int64{1, 10, 29, 30, 31, 45, 60, 600, 3600, 86400}[r.Intn(10)]*1_000_000_000 + int64(r.Range(-1, 1))*4
+				cur -= d
 			default:
 				cur += int64(r.Range(1, 1500)) * 1000
 			}
@@ -163,6 +176,9 @@ func runConn(seed uint64, workers, opsPer int) connResult {
 			cur -= int64(r.Range(1, 2000))
 		default:
 			cur += int64(r.Range(4, 5000))
+		}
+		if r.Chance(1, 25) { // the wall clock is stepped back: seconds .. a day
+			cur -= []int64{2, 31, 45, 600, 7200, 86400}[r.Intn(6)] * 1_000_000_000
 		}
 		script = append(script, cur)
 	}
@@ -322,8 +338,12 @@ func main() {
 	connCase := func(kind string, seed uint64, workers, ops int) {
 		c.Obs.Evaluations++
 		c.Count(fmt.Sprintf("conn:%s:workers=%d", kind, workers))
-		res := runConn(seed, workers, ops)
+		var res connResult
 		rp := map[string]interface{}{"conn_seed": seed, "workers": workers, "ops": ops}
+		if !mtx.Watchdog(60*time.Second, func() { res = runConn(seed, workers, ops) }, nil) {
+			c.Violate("scenario-hang", fmt.Sprintf("Conn run (%d goroutines x %d requests) did not finish within 60 s", workers, ops), -1, 0, rp)
+			return
+		}
 		if res.Err != "" {
 			for i := 1; i < len(res.IDs); i++ {
 				if res.IDs[i] == res.IDs[i-1] {
@@ -374,6 +394,10 @@ func main() {
 	genCase("corpus", []int64{999_999_996, 999_999_997, 999_999_998, 999_999_999, 999_999_999, 999_999_999})
 	genCase("corpus", []int64{5_000_000_000, 1, 2, 3, 5_000_000_001, 5_000_000_004})
 	genCase("corpus", []int64{1_700_000_000_123_456_789, 1_700_000_000_123_456_790, 1_700_000_000_123_456_791})
+	for _, back := range []int64{1e9, 29_999_999_996, 30e9, 30_000_000_004, 31e9, 45e9, 600e9, 3 * 3600e9, 86400e9} {
+		t0 := int64(1_700_000_000_000_000_000)
+		genCase("corpus-step-back", []int64{t0, t0 + 5, t0 + 5, t0 - back, t0 - back, t0 - back + 7, t0 + 9, t0 - 2*back})
+	}
 	// all step patterns of length 4 over steps {-5, 0, 1, 3, 4, 9} from two bases
 	steps := []int64{-5, 0, 1, 3, 4, 9}
 	for _, base := range []int64{100, 2_999_999_990} {
@@ -397,6 +421,6 @@ func main() {
 	for i := 0; i < c.N(30, 600); i++ {
 		connCase("concurrent", c.Rng.U64(), 8, c.Rng.Range(2, 8))
 	}
-	c.Obs.Rule = "MessageIDGen cases: scripted clock sequences (corpus incl. the repaired 1000/1001 ns witness, all 4-step patterns over steps {-5,0,1,3,4,9} at two bases, random sequences of <=24 readings over frozen/backward/+1..3 ns/coarse steps at small, realistic and second-boundary bases); non-trivial = distinct sequence containing a step below 4 ns (frozen, backwards or sub-resolution). Conn cases: frames written by a real Conn, 1 or 8 goroutines mixing Invoke and service messages, taken in msg_id order; each distinct run counts"
+	c.Obs.Rule = "MessageIDGen cases: scripted clock sequences (corpus incl. the repaired 1000/1001 ns witness, all 4-step patterns over steps {-5,0,1,3,4,9} at two bases, steps back by 1 s..1 day after a burst of ids, random sequences of <=24 readings over frozen/backward/+1..3 ns/coarse steps and steps of every magnitude 1 ns..hours in both directions at small, realistic and second-boundary bases); non-trivial = distinct sequence containing a step below 4 ns (frozen, backwards or sub-resolution). Conn cases: frames written by a real Conn, 1 or 8 goroutines mixing Invoke and service messages, taken in msg_id order; each distinct run counts"
 	c.Finish()
 }
